@@ -646,7 +646,15 @@ func (g *Gen) stableScan() []*Oblig {
 						continue
 					}
 					nStores++
-					if _, isAlloc := fa.X.(*ssa.Alloc); isAlloc {
+					root := fa.X
+					for {
+						if in2, ok := root.(*ssa.FieldAddr); ok {
+							root = in2.X // a struct embedded in (a struct embedded in ...) the object
+							continue
+						}
+						break
+					}
+					if _, isAlloc := root.(*ssa.Alloc); isAlloc {
 						continue
 					}
 					isCtor := false
